@@ -24,7 +24,7 @@ use qbice_storage::kv_database::{
 
 use crate::Rng;
 
-#[derive(Clone, Debug, PartialEq, Eq, serde::Serialize, serde::Deserialize)]
+#[derive(Clone, Debug, PartialEq, Eq, PartialOrd, Ord, serde::Serialize, serde::Deserialize)]
 pub enum RawOp {
     Put { col: u128, disc: Vec<u8>, key: Vec<u8>, val: Vec<u8> },
     Del { col: u128, disc: Vec<u8>, key: Vec<u8> },
